@@ -180,10 +180,10 @@ def remote_fault_probe(ctx, rep, mine, n=6, focus=None, prefer_exists=False):
         victim = rng.choice(['snapshot', 'snapshot', 'delete']) if focus is None else (focus if rng.random() < 0.8 else rng.choice(['snapshot', 'delete']))
         if dep.startswith('b2'):
             op = rng.choice(['upload', 'upload', 'get_upload_url', 'head']) if victim == 'snapshot' else rng.choice(['hide_file', 'list_file_names'])
-            kinds = ['401', '401', '500', '503', '403']
+            kinds = ['401', '401', '500', '503', '403', '400']
         else:
             op = rng.choice(['PUT', 'PUT', 'HEAD']) if victim == 'snapshot' else rng.choice(['DELETE', 'LIST'])
-            kinds = ['500', '503', '403', '401']
+            kinds = ['500', '503', '403', '401', '400']
         if prefer_exists and victim == 'snapshot' and trial % 2 == 0:
             # the existence check of a chunk is the call that fails (throttled, refused): "is it there?" has no answer
             op = 'head' if dep.startswith('b2') else 'HEAD'
